@@ -128,6 +128,7 @@ package vuego
 //@   ensures C17.pop.last: old(len(s.stack)) == 1 ==> len(s.stack) == 1 && fresh(s.stack[0]) && forall k string :: !(k in s.stack[0])
 
 //@ func NewStackWithData(root, originalData) (s)
+//@   modifies nothing
 //@   ensures C17.new: fresh(s) && len(s.stack) == 1 && s.rootData == originalData && (root != nil ==> s.stack[0] == root)
 //@   ensures C17.pool.len.new: len(s.pooled) == len(s.stack)
 //@   ensures C10+C17.pool.inv.new: forall i int :: 0 <= i && i < len(s.pooled) && i < len(s.stack) && s.pooled[i] ==> fromPool(s.stack[i])
@@ -141,10 +142,10 @@ package vuego
 //@ func (s *Stack) EnvMap() (r)
 //@   modifies nothing
 //@   ensures C08+C17.agree: fresh(r) && forall k string :: ((k in r) == envHas(s, k, len(s.stack))) && ((k in r) ==> r[k] == envGet(s, k, len(s.stack)))
-//@   loop 0 invariant C17.env.outer: 0 <= i && i <= len(s.stack) && fresh(result) && result != nil &&
-//@     forall k string :: ((k in result) == envHas(s, k, i)) && ((k in result) ==> result[k] == envGet(s, k, i))
-//@   loop 1 invariant C17.env.inner: 0 <= i && i < len(s.stack) && fresh(result) && result != nil &&
-//@     forall k string :: (visited(k) ==> (k in s.stack[i]) && (k in result) && result[k] == s.stack[i][k]) &&
+//@   loop 0 invariant C17.env.bounds: 0 <= i && i <= len(s.stack) && fresh(result) && result != nil
+//@   loop 0 invariant C17.env.outer: forall k string :: ((k in result) == envHas(s, k, i)) && ((k in result) ==> result[k] == envGet(s, k, i))
+//@   loop 1 invariant C17.env.bounds1: 0 <= i && i < len(s.stack) && fresh(result) && result != nil
+//@   loop 1 invariant C17.env.inner: forall k string :: (visited(k) ==> (k in s.stack[i]) && (k in result) && result[k] == s.stack[i][k]) &&
 //@       (!visited(k) ==> ((k in result) == envHas(s, k, i)) && ((k in result) ==> result[k] == envGet(s, k, i)))
 
 //@ func (s *Stack) Copy() (c)
